@@ -297,7 +297,9 @@ Definition step1 (s : stmt) (k : list frame) (m : mach) : outcome :=
                    mx (PyTaskMap (combine (seq (length (w_an w)) (length l)) l)))
     | _ => OStuck m end
   | SWait d p ex =>
-    match eval w e ex with Some (PySet ws) => OWait d p ws k m | _ => OStuck m end
+    match eval w e ex with
+    | Some (PySet ws) => if sis_empty ws then OStuck m (* ValueError: set of tasks is empty *) else OWait d p ws k m
+    | _ => OStuck m end
   | SYield x ex =>
     match eval w e ex with Some v => OYield x v k m | None => OStuck m end
   | SResult x tx h =>
@@ -649,3 +651,20 @@ Fixpoint itrun_from (ms : list meth) (sel : selector) (flag : bool) (st : itstat
   | l :: r => let '(st', o) := itstep ms sel flag st l in
               let '(st'', os) := itrun_from ms sel flag st' r in (st'', o :: os)
   end.
+
+(** ---- the consumer closes / is cancelled ---- *)
+
+(** `aclose()` of the generator (or cancellation of the consumer while it awaits `__anext__`): GeneratorExit /
+    CancelledError is raised at the suspension point.  The syntax of Aio/Syntax.v has no try/finally and no
+    handler around a suspension point (the translator refuses them; the only handler, [SResult]'s, guards a
+    `.result()` call), so nothing of the body runs any more: the generator is finished.  Nothing cancels the
+    tasks the body has armed or was handed: they stay in the heap as they are and can still complete. *)
+Definition iclose (c : cfg) : cfg :=
+  match c_st c with
+  | StFresh _ | StWait _ _ _ _ | StYield _ _ => mkC StFinished (c_m c)
+  | _ => c
+  end.
+
+(** labels of the environment alone (they do not look at the generator) *)
+Definition glabel_env (l : glabel) : bool :=
+  match l with GSpawn | GTaskEnd _ _ | GSrc => true | GSend _ | GWake _ => false end.
